@@ -39,8 +39,10 @@ pub fn output_effect(callee: &str) -> Option<&'static str> {
 }
 
 /// (owner suffix, effect) audited
-const ALLOWED: [(&str, &str, &str); 4] = [
+const ALLOWED: [(&str, &str, &str); 6] = [
     ("Compiler::<B, CompilerReady>::output_generated", "file write", "the one delivery point of compile()"),
+    ("Compiler::<B, CompilerReady>::output_generated", "file create", "the one delivery point of compile(); what is written where is decided by C20.dest"),
+    ("Compiler::<B, CompilerReady>::output_generated", "file open for writing", "the one delivery point of compile(); truncation is decided by C20.dest"),
     ("Compiler::<B, CompilerReady>::output_generated", "stdout handle", "the one delivery point of compile()"),
     ("generator::rasn::Rasn::internal_fmt", "child process", "rustfmt child: formats finished text; set aside by the property"),
     ("generator::rasn::Rasn::internal_fmt", "thread", "feeds rustfmt's stdin"),
@@ -85,7 +87,7 @@ File-system semantics (atomicity of fs::write, read-only destinations) are not d
                 effects_seen.insert(key.clone());
                 if !ALLOWED.iter().any(|(o, w, _)| owner.ends_with(o) && *w == what) {
                     ctx.violate("C20.effects", &key, &b.file, bl.line,
-                        &format!("`{}` performs a {} (`{}`) on the compile path, outside output_generated: compile() must deliver exactly the compiled text, to the selected destination only; reachable via {}",
+                        &format!("`{}` performs a {} (`{}`) on the compile path, which is not an audited (fn, effect) pair: compile() must deliver exactly the compiled text, to the selected destination only; reachable via {}",
                             owner, what, bl.callee, facts.chain(&pred, i).join(" -> ")));
                 }
             }
@@ -320,34 +322,109 @@ fn dest_tables(m: &Model, ctx: &mut Ctx) {
     };
     let variants = m.find_enum("OutputMode").map(|e| e.variants.clone()).unwrap_or_default();
     ctx.floor("C20.dest/output-modes", variants.len(), 3);
-    let consts = const_resolver(m);
-    let ev = Evaluator { consts: &consts, call_hook: &crate::eval::no_hook, inline: None };
-    for v in &variants {
-        ctx.oblige("C20.dest", &format!("OutputMode::{}", v), true);
-        let val = if v == "SingleFile" { Val::Ctor(v.clone(), vec![Val::Sym("path".into())], BTreeMap::new()) } else { Val::ctor(v) };
-        match ev.select_arm(mt, &val, &Env::new()) {
-            Err(e) => ctx.fail_closed("C20.dest", &format!("OutputMode::{}: {}", v, e)),
-            Ok((i, _)) => {
-                let body = tok(&mt.arms[i].body);
-                let g = &gen_param;
-                let (ok, want) = match v.as_str() {
-                    "SingleFile" => (
-                        body.contains(&format!("fs::write(path,{})", g)) && body.contains("path.is_dir()") && body.contains(&model::norm_tokens("path.join(format!(\"generated{}\", B::FILE_EXTENSION))")) && body.contains(".map_err(") && !body.contains("stdout"),
-                        "fs::write(path-or-dir/generated<ext>, generated).map_err(..)",
-                    ),
-                    "Stdout" => (
-                        body.contains(&format!("std::io::stdout().write_all({}.as_bytes())", g)) && body.contains(".map_err(") && !body.contains("fs::"),
-                        "stdout().write_all(generated.as_bytes()).map_err(..)",
-                    ),
-                    "NoOutput" => (body == "Ok(())", "Ok(()) and nothing else"),
-                    _ => (false, "an audited action (new output mode)"),
-                };
-                if !ok {
-                    ctx.violate("C20.dest", &format!("OutputMode::{}", v), &f.file, span_line(&mt.arms[i]),
-                        &format!("output mode {}: action `{}` is not the documented one ({})", v, body.chars().take(160).collect::<String>(), want));
+    let consts_base = const_resolver(m);
+    let consts = |n: &str| -> Option<Val> {
+        if n.ends_with("FILE_EXTENSION") {
+            return Some(Val::Str(".EXT".into()));
+        }
+        consts_base(n)
+    };
+    // The arm is evaluated over a small effect model: std's writing primitives return a value that records
+    // (destination, bytes, truncating?) and the arm must evaluate to Ok(<one delivery>) or to an Err built by map_err.
+    fn named(n: &str, fields: &[(&str, Val)]) -> Val {
+        Val::Ctor(n.into(), vec![], fields.iter().map(|(k, v)| (k.to_string(), v.clone())).collect())
+    }
+    fn field(v: &Val, k: &str) -> Option<Val> {
+        match v { Val::Ctor(_, _, f) => f.get(k).cloned(), _ => None }
+    }
+    fn ok(v: Val) -> Val {
+        Val::Ctor("Ok".into(), vec![v], BTreeMap::new())
+    }
+    let dir = std::cell::Cell::new(false);
+    let hook = |ev: &Evaluator, name: &str, a: &[Val]| -> Option<Result<Val, String>> {
+        let last = name.rsplit("::").next().unwrap_or(name);
+        match (name, last) {
+            (".is_dir", _) => Some(Ok(Val::Bool(dir.get()))),
+            (".is_file", _) => Some(Ok(Val::Bool(!dir.get()))),
+            (".join", _) => match (a.first(), a.get(1)) {
+                (Some(Val::Sym(p)), Some(Val::Str(x))) => Some(Ok(Val::Sym(format!("{}/{}", p, x)))),
+                _ => Some(Err("path.join with an unmodelled argument".into())),
+            },
+            (".as_bytes", _) | (".as_str", _) | (".as_path", _) | (".as_ref", _) | (".to_owned", _) | (".to_path_buf", _) | (".clone", _) | (".to_string", _) if a.len() == 1 => Some(Ok(a[0].clone())),
+            (".display", _) => Some(Ok(Val::Str("<path>".into()))),
+            // error mapping leaves a successful delivery as it is
+            (".map_err", _) | (".or_else", _) if matches!(a.first(), Some(Val::Ctor(n, _, _)) if n == "Ok") => Some(Ok(a[0].clone())),
+            (".and_then", _) | (".map", _) if matches!(a.first(), Some(Val::Ctor(n, _, _)) if n == "Ok") => match (&a[0], a.get(1)) {
+                (Val::Ctor(_, p, _), Some(Val::Closure(cl, cenv))) => {
+                    let r = ev.apply_closure(&syn::Expr::Closure((**cl).clone()), &[p.first().cloned().unwrap_or(Val::Unit)], cenv);
+                    Some(if name == ".map" { r.map(ok) } else { r })
                 }
-                if body.contains("unwrap()") || body.contains("expect(") {
-                    ctx.violate("C20.dest", &format!("OutputMode::{}:unwrap", v), &f.file, span_line(&mt.arms[i]), "an unwritable destination must be reported as Err, not a panic");
+                _ => None,
+            },
+            (n, "write") if n.ends_with("fs::write") => Some(Ok(ok(named("Delivered", &[("to", a.first().cloned().unwrap_or(Val::Unit)), ("bytes", a.get(1).cloned().unwrap_or(Val::Unit)), ("truncating", Val::Bool(true))])))),
+            (n, "create") if n.ends_with("File::create") => Some(Ok(ok(named("File", &[("to", a.first().cloned().unwrap_or(Val::Unit)), ("truncating", Val::Bool(true))])))),
+            (n, "new") if n.ends_with("OpenOptions::new") => Some(Ok(named("OpenOptions", &[("truncate", Val::Bool(false)), ("append", Val::Bool(false)), ("write", Val::Bool(false)), ("create", Val::Bool(false))]))),
+            (".write", _) | (".create", _) | (".truncate", _) | (".append", _) | (".create_new", _) if matches!(a.first(), Some(Val::Ctor(n, _, _)) if n == "OpenOptions") => {
+                let Val::Ctor(n, p, mut f) = a[0].clone() else { return None };
+                f.insert(name.trim_start_matches('.').to_string(), a.get(1).cloned().unwrap_or(Val::Bool(true)));
+                Some(Ok(Val::Ctor(n, p, f)))
+            }
+            (".open", _) if matches!(a.first(), Some(Val::Ctor(n, _, _)) if n == "OpenOptions") => {
+                let t = field(&a[0], "truncate") == Some(Val::Bool(true)) && field(&a[0], "append") != Some(Val::Bool(true));
+                Some(Ok(ok(named("File", &[("to", a.get(1).cloned().unwrap_or(Val::Unit)), ("truncating", Val::Bool(t))]))))
+            }
+            (".write_all", _) => match a.first() {
+                Some(Val::Ctor(n, _, _)) if n == "File" => Some(Ok(ok(named("Delivered", &[("to", field(&a[0], "to").unwrap_or(Val::Unit)), ("bytes", a.get(1).cloned().unwrap_or(Val::Unit)), ("truncating", field(&a[0], "truncating").unwrap_or(Val::Bool(false)))])))),
+                Some(Val::Ctor(n, _, _)) if n == "Stdout" => Some(Ok(ok(named("Delivered", &[("to", Val::Sym("<stdout>".into())), ("bytes", a.get(1).cloned().unwrap_or(Val::Unit)), ("truncating", Val::Bool(true))])))),
+                _ => None,
+            },
+            (n, "stdout") if n.ends_with("io::stdout") => Some(Ok(Val::Ctor("Stdout".into(), vec![], BTreeMap::new()))),
+            (".lock", _) if matches!(a.first(), Some(Val::Ctor(n, _, _)) if n == "Stdout") => Some(Ok(a[0].clone())),
+            _ => None,
+        }
+    };
+    let ev = Evaluator { consts: &consts, call_hook: &hook, inline: None };
+    for v in &variants {
+        let scenarios: Vec<(bool, &str)> = if v == "SingleFile" { vec![(false, "P"), (true, "P/generated.EXT")] } else if v == "Stdout" { vec![(false, "<stdout>")] } else { vec![(false, "")] };
+        for (is_dir, want_to) in scenarios {
+            let key = format!("OutputMode::{}{}", v, if v == "SingleFile" { if is_dir { ":directory" } else { ":file" } } else { "" });
+            ctx.oblige("C20.dest", &key, true);
+            dir.set(is_dir);
+            let val = if v == "SingleFile" { Val::Ctor(v.clone(), vec![Val::Sym("P".into())], BTreeMap::new()) } else { Val::ctor(v) };
+            let mut env0 = Env::new();
+            env0.insert(gen_param.clone(), Val::Sym("GENERATED".into()));
+            match ev.select_arm(mt, &val, &env0) {
+                Err(e) => ctx.fail_closed("C20.dest", &format!("{}: {}", key, e)),
+                Ok((i, mut e2)) => {
+                    let body = tok(&mt.arms[i].body);
+                    let r = ev.eval(&mt.arms[i].body, &mut e2);
+                    let line = span_line(&mt.arms[i]);
+                    match (v.as_str(), r) {
+                        ("NoOutput", Ok(Val::Ctor(o, p, _))) if o == "Ok" && p.first() == Some(&Val::Unit) => {}
+                        ("NoOutput", Ok(o)) => ctx.violate("C20.dest", &key, &f.file, line, &format!("output mode NoOutput must do nothing and return Ok(()); the arm evaluates to {}", o.show())),
+                        (_, Ok(Val::Ctor(o, p, _))) if o == "Ok" && matches!(p.first(), Some(Val::Ctor(n, _, _)) if n == "Delivered") => {
+                            let d = p[0].clone();
+                            let to = field(&d, "to").map(|x| x.show()).unwrap_or_default();
+                            let bytes = field(&d, "bytes").map(|x| x.show()).unwrap_or_default();
+                            if to != want_to {
+                                ctx.violate("C20.dest", &format!("{}:destination", key), &f.file, line, &format!("output mode {} delivers to `{}`; the destination is `{}` (the given file, or generated<ext> inside a given directory)", key, to, want_to));
+                            }
+                            if bytes != "GENERATED" {
+                                ctx.violate("C20.dest", &format!("{}:text", key), &f.file, line, &format!("output mode {} writes `{}`, not exactly the compiled text handed to output_generated", key, bytes));
+                            }
+                            if field(&d, "truncating") != Some(Val::Bool(true)) {
+                                ctx.violate("C20.dest", &format!("{}:stale-tail", key), &f.file, line, &format!("output mode {} opens the destination without truncating it: an existing longer file keeps its tail after the compiled text", key));
+                            }
+                        }
+                        (_, Ok(o)) => ctx.violate("C20.dest", &key, &f.file, line, &format!("output mode {}: the arm does not evaluate to one delivery of the compiled text (got {}); recognised primitives: fs::write, File::create / OpenOptions(..truncate(true)).open + write_all, io::stdout().write_all", key, o.show().chars().take(160).collect::<String>())),
+                        (_, Err(e)) => ctx.fail_closed("C20.dest", &format!("{}: {}", key, e)),
+                    }
+                    if v != "NoOutput" && !body.contains(".map_err(") && !body.contains("?") {
+                        ctx.violate("C20.dest", &format!("{}:io-error", key), &f.file, line, "the io::Result of the delivery must be turned into the fn's Err (map_err / ?)");
+                    }
+                    if body.contains("unwrap()") || body.contains("expect(") {
+                        ctx.violate("C20.dest", &format!("OutputMode::{}:unwrap", v), &f.file, line, "an unwritable destination must be reported as Err, not a panic");
+                    }
                 }
             }
         }
